@@ -539,6 +539,26 @@ pub fn cmd_batch(a: &Args) -> i32 {
 		eprintln!("HARNESS-ERROR: no run completed");
 		exit = 2;
 	}
+	// runs that stopped early because the simulated world could not be driven any
+	// further (a block the real chain refuses, a panic outside the property's scope)
+	// explored little: when that is the rule rather than the exception nothing may
+	// be concluded from "no violation"
+	let n_aborted: u64 = aborted.values().sum();
+	if exit == 0 && runs_done > 0 && n_aborted * 2 > runs_done {
+		let mut kinds: Vec<String> = aborted
+			.keys()
+			.map(|k| k.split(": Commitment(").next().unwrap_or(k).chars().take(120).collect())
+			.collect();
+		kinds.sort();
+		kinds.dedup();
+		eprintln!(
+			"HARNESS-ERROR: {} of {} runs were abandoned before their history ended ({}): this tree cannot be explored by this check, nothing is concluded",
+			n_aborted,
+			runs_done,
+			kinds.into_iter().take(3).collect::<Vec<_>>().join("; ")
+		);
+		exit = 2;
+	}
 	let _ = std::fs::remove_dir_all(&tmp);
 	sweep_scratch();
 	exit
